@@ -1,0 +1,10 @@
+// Verification hooks (deterministic simulation); compiled only with `--cfg maidsafe_safe_network_verif`.
+
+use crate::{driver::SwarmDriver, error::Result};
+
+impl SwarmDriver {
+    /// Feed one (synthetic) kademlia event to the real handler.
+    pub fn verif_handle_kad_event(&mut self, event: libp2p::kad::Event) -> Result<()> {
+        self.handle_kad_event(event)
+    }
+}
